@@ -39,7 +39,13 @@ def conversion(case, d):
     if case["route"] == "numpy":
         # (the reference is always made from the C-contiguous array; the run under test may get the same values
         # as a Fortran-ordered array, a window into a larger one, every other sample of a longer one)
-        data = gen.as_layout(gen.make_values(tuple(case["shape"]), "gauss", 5), case.get("mem"))
+        data = gen.make_values(tuple(case["shape"]), "gauss", 5)
+        if case.get("nonfinite"):
+            # samples outside the finite range (what segyio hands over for IBM values beyond float32): nothing is claimed
+            # about their coded values, only that the pipeline still terminates with the sequential file
+            data = data.copy()
+            data[0, 0, 0], data[-1, -1, -1], data[1, 1, 1] = np.inf, -np.inf, np.nan
+        data = gen.as_layout(data, case.get("mem"))
         return (lambda: conv.numpy_convert(data, out, rate, bs)), out
     key = (case["route"], tuple(case["shape"]))
     path = os.path.join(d, f"in_{case['route']}_{'_'.join(map(str, case['shape']))}.sgy")
@@ -116,12 +122,13 @@ def reference(case, d):
     """The file a strictly sequential execution produces: the same conversion under the scheduler with the
     'downstream first' policy (every item is compressed and written before the next one is produced), checked
     against an unscheduled run with real threads."""
-    key = repr((case["route"], case["shape"], case["setting"], case.get("mode")))
+    key = repr((case["route"], case["shape"], case["setting"], case.get("mode"), bool(case.get("nonfinite"))))
     if key not in _ref_cache:
         case = dict(case, mem=None)
         S, log, data, err, leftover, queues = scheduled(dict(case, cap=1), d, [], policy="downstream")
         if err is not None or data is None:
-            raise Violation("sequential-execution-fails", f"{case['route']} {case['shape']} {case['setting']}: {err!r}")
+            raise Violation("sequential-execution-fails", f"{case['route']} {case['shape']} {case['setting']}: {err!r}"
+                            + (f"; a worker thread died: {S.thread_errors[:2]}" if S.thread_errors else ""))
         if max((q.max_len for q in queues), default=0) > 1:
             raise RuntimeError("harness: the 'downstream first' execution let an item wait behind another")
         thunk, out = conversion(case, d)
@@ -138,7 +145,8 @@ def check_schedule(case, ctx, d, choices):
     S, log, data, err, leftover, queues = scheduled(case, d, choices)
     what = f"{case['route']} shape {case['shape']} setting {case['setting']} capacity {case['cap']}, schedule {list(choices)[:40]}"
     if isinstance(err, sched.Deadlock):
-        raise Violation("deadlock", f"{what}: no thread can move; pending {err}; last steps {S.trace[-6:]}")
+        raise Violation("deadlock", f"{what}: no thread can move; pending {err}; last steps {S.trace[-6:]}"
+                        + (f"; a worker thread died: {S.thread_errors[:2]}" if S.thread_errors else ""))
     if isinstance(err, sched.TooManySteps):
         raise Violation("does-not-terminate", f"{what}: {err}")
     if leftover:
@@ -198,7 +206,7 @@ def cases(draw):
     return {"route": route, "shape": list(shape), "setting": [setting[0], list(setting[1])],
             "cap": draw(st.sampled_from([1, 2, 16])), "mode": draw(st.sampled_from(["heuristic", "thorough", "strip"])),
             "choices": draw(st.lists(st.integers(0, 2), min_size=0, max_size=120)),
-            **({"mem": draw(st.sampled_from(gen.MEM_LAYOUTS))} if route == "numpy" else {})}
+            **({"mem": draw(st.sampled_from(gen.MEM_LAYOUTS)), "nonfinite": draw(st.integers(0, 5)) == 0} if route == "numpy" else {})}
 
 
 def run_case(case, ctx):
